@@ -34,12 +34,11 @@ import (
 	"k8s.io/apimachinery/pkg/types"
 	k8sjson "k8s.io/apimachinery/pkg/util/json"
 	utilruntime "k8s.io/apimachinery/pkg/util/runtime"
-	"k8s.io/client-go/tools/cache"
 	"sigs.k8s.io/controller-runtime/pkg/client"
 	"sigs.k8s.io/controller-runtime/pkg/reconcile"
 
 	"metacontroller/pkg/apis/metacontroller/v1alpha1"
-	mclisters "metacontroller/pkg/client/generated/lister/metacontroller/v1alpha1"
+	mcinformers "metacontroller/pkg/client/generated/informer/externalversions"
 	"metacontroller/pkg/controller/common"
 	dynamicinformer "metacontroller/pkg/dynamic/informer"
 	vh "metacontroller/pkg/internal/verifh"
@@ -88,13 +87,25 @@ func (c *c20Client) Get(ctx context.Context, key client.ObjectKey, obj client.Ob
 
 // c20Host wraps the real Metacontroller of this package.
 type c20Host struct {
-	mc  *Metacontroller
-	cli *c20Client
+	mc     *Metacontroller
+	cli    *c20Client
+	stopCh chan struct{} // stops the ControllerRevision informer
 }
 
 func c20NewHost(w *cworld, workers int) *c20Host {
 	cli := &c20Client{objs: map[string]*v1alpha1.CompositeController{}, crds: map[string]*apiextensionsv1.CustomResourceDefinition{}, failGet: map[string]bool{}}
-	revIndexer := cache.NewIndexer(cache.MetaNamespaceKeyFunc, cache.Indexers{cache.NamespaceIndex: cache.MetaNamespaceIndexFunc})
+	// the shared ControllerRevision informer, started and synced as at process start
+	mcFactory := mcinformers.NewSharedInformerFactory(w.mcClient, time.Hour)
+	revisions := mcFactory.Metacontroller().V1alpha1().ControllerRevisions()
+	revisionLister, revisionInformer := revisions.Lister(), revisions.Informer()
+	stopCh := make(chan struct{})
+	mcFactory.Start(stopCh)
+	for i := 0; !revisionInformer.HasSynced(); i++ {
+		if i > 20000 {
+			panic("ControllerRevision informer never synced")
+		}
+		time.Sleep(200 * time.Microsecond)
+	}
 	mc := &Metacontroller{
 		k8sClient:         cli,
 		resources:         w.resources,
@@ -102,14 +113,18 @@ func c20NewHost(w *cworld, workers int) *c20Host {
 		dynInformers:      dynamicinformer.NewSharedInformerFactory(w.dynClient, time.Hour),
 		eventRecorder:     vh.NoopRecorder{},
 		mcClient:          w.mcClient,
-		revisionLister:    mclisters.NewControllerRevisionLister(revIndexer),
+		revisionLister:    revisionLister,
+		revisionInformer:  revisionInformer,
 		parentControllers: map[string]*parentController{},
 		numWorkers:        workers,
 		ssaOptions:        &common.ApplyOptions{FieldManager: "metacontroller", Strategy: common.ApplyStrategyDynamicApply},
 		logger:            logr.Discard(),
 	}
-	return &c20Host{mc: mc, cli: cli}
+	return &c20Host{mc: mc, cli: cli, stopCh: stopCh}
 }
+
+// close stops what the host itself started (after stopAll)
+func (h *c20Host) close() { close(h.stopCh) }
 
 func (h *c20Host) reconcile(realName string) error {
 	_, err := h.mc.Reconcile(context.Background(), reconcile.Request{NamespacedName: types.NamespacedName{Name: realName}})
@@ -884,6 +899,7 @@ func c20RunCase(slot int, c *c20Case) (recs []c20StepRec) {
 	defer func() {
 		run.openGate()
 		run.host.stopAll()
+		run.host.close()
 		run.w.close()
 	}()
 	run.seedCluster()
@@ -2063,4 +2079,10 @@ func c20Cap(n int) int {
 
 func c20Sequential() bool { return os.Getenv("VERIF_C20_SEQ") == "1" }
 
-func TestVerif_C20(t *testing.T) { c20Main(t) }
+func TestVerif_C20(t *testing.T) {
+	if os.Getenv("VERIF_PROP") == "C09m" {
+		c09mMain(t) // zz_verif_c20_c09m_test.go
+		return
+	}
+	c20Main(t)
+}
